@@ -349,6 +349,8 @@ namespace foonathan
                     {
                         detail::debug_fill(stack_.top(), offset, debug_magic::alignment_memory);
                         pool.insert(stack_.top() + offset, remaining - offset);
+                        // the rest of the block belongs to the pool now, must not be used again
+                        stack_.bump(remaining);
                         return true;
                     }
                 }
